@@ -13,7 +13,7 @@ from ..model import ClassRef
 
 LEVEL = 'other'
 EXPLANATION = (
-    'Static analysis by folding the definitions that give lexical items their value semantics. (R1) orderitems over all small key pairs; the constructors of Predicated / Quantified / Operated / CoordsItem folded over families of mock components: spec equal <=> sort_tuple equal, key starts with the type rank; the five comparison operators folded from the one wrapper; hashitem depends on the key only; Argument ordering and hash (title excluded). (R2) eq/hash pairing. (R3) immutability decided on the setters: the __setattr__ each lexical class resolves to (tools.NoSetAttr folded) applied in the state after lang.init(). (R4) the construction cache folded over every reachable small state for sizes 0-2. (R5) cache invisibility: metacall.call folded with the spec cached / never cached / evicted, system predicates included. Injectivity of the key on real items and pickling are declined. R3 also drives the setters with underscore names (_value_, _readonly, a private name) and folds the metaclass setters (LangCommonMeta / LangCommonEnumMeta.__setattr__) on the classes themselves: once init() ran, assigning the read-only flag, an existing class attribute or a new one on a lexical class is refused. R5 also drives specs that merely equal a cached int spec (1.0, 1+0j): the outcome must be the same cold and warm (known finding F18).')
+    'Static analysis by folding the definitions that give lexical items their value semantics. (R1) orderitems over all small key pairs; the constructors of Predicated / Quantified / Operated / CoordsItem folded over families of mock components: spec equal <=> sort_tuple equal, key starts with the type rank; the five comparison operators folded from the one wrapper; hashitem depends on the key only; Argument ordering and hash (title excluded). (R2) eq/hash pairing. (R3) immutability decided on the setters: the __setattr__ each lexical class resolves to (tools.NoSetAttr folded) applied in the state after lang.init(). (R4) the construction cache folded over every reachable small state for sizes 0-2. (R5) cache invisibility: metacall.call folded with the spec cached / never cached / evicted, system predicates included. Injectivity of the key on real items and pickling are declined. R3 also drives the setters with underscore names (_value_, _readonly, a private name) and folds the metaclass setters (LangCommonMeta / LangCommonEnumMeta.__setattr__) on the classes themselves: once init() ran, assigning the read-only flag, an existing class attribute or a new one on a lexical class is refused. R5 also drives specs that merely equal a cached int spec (1.0, 1+0j): the outcome must be the same cold and warm (known finding F18). (R6) pickle by reference: a class built inside a function and published as an attribute of another class (Predicate.System) has its __qualname__ folded and compared with the path it is published under; __getnewargs__ returns the spec.')
 TRUSTED = ['CPython ast', 'sa.minieval', 'itertools.zip_longest / starmap semantics']
 ASSUMPTIONS = ['sort tuples consist of integers (as every constructor in lang/lex.py builds them)']
 
